@@ -230,6 +230,10 @@ func (mp *MotionProcessor) ProcessFrame(srcFrame *cptvframe.Frame) {
 }
 
 func (mp *MotionProcessor) GetRecentFrame() (uint32, *cptvframe.Frame) {
+	if mp.CurrentFrame == 0 {
+		// Nothing has been received on this connection yet.
+		return 0, nil
+	}
 	return mp.CurrentFrame, mp.frameLoop.CopyRecent()
 }
 
